@@ -616,7 +616,7 @@ def run_wa(warun, path, timeout):
 def run_go(d, timeout):
     env = dict(GOENV, GOFLAGS="-mod=mod", GO111MODULE="off", GOCACHE=os.environ.get("GOCACHE", os.path.expanduser("~/.cache/go-build")))
     try:
-        p = subprocess.run(["go", "run", "main.go"], cwd=d, stdout=subprocess.PIPE, stderr=subprocess.PIPE, text=True, timeout=timeout, env=env)
+        p = vlib.go_run(d, env, timeout)
         lines = p.stderr.splitlines()                      # println writes to stderr under Go
         if p.returncode != 0:
             return "err:%d" % p.returncode, lines, p.stderr[-400:]
